@@ -186,6 +186,12 @@ func c42BelongsTo(o client.Object, cl *kafscalev1alpha1.KafscaleCluster) bool {
 	return false
 }
 
+// c42EndpointAliases returns distinct endpoint strings that all reach the same etcd server.
+func c42EndpointAliases(ep string) []string {
+	bare := strings.TrimPrefix(ep, "http://")
+	return []string{ep, bare, ep + "/"}
+}
+
 // c42OneCase generates and runs one case; it returns a violation message or "".
 func c42OneCase(t *rapid.T, st *vfkit.Stats, ctx context.Context, scheme *runtime.Scheme, endpoints []string) string {
 	cluster := c42Cluster(t, c42Opts{allowUnsetReplicas: true})
@@ -216,15 +222,23 @@ func c42OneCase(t *rapid.T, st *vfkit.Stats, ctx context.Context, scheme *runtim
 	}
 	all := append([]*kafscalev1alpha1.KafscaleCluster{cluster}, others...)
 	switch mode {
-	case "external":
-		for _, cl := range all {
-			cl.Spec.Etcd.Endpoints = append([]string{" " + endpoints[0] + " "}, endpoints[1:]...)
+	case "external", "external-env":
+		// 1-3 DISTINCT endpoint strings, all reaching the one embedded etcd (URL with scheme, bare
+		// host:port, trailing slash), in a drawn order
+		aliases := c42EndpointAliases(endpoints[0])
+		perm := rapid.Permutation(aliases).Draw(t, "endpointOrder")
+		eps := perm[:rapid.SampledFrom([]int{1, 2, 2, 3, 3}).Draw(t, "endpointCount")]
+		st.Class(fmt.Sprintf("external-endpoints-%d", len(eps)))
+		if mode == "external" {
+			for _, cl := range all {
+				cl.Spec.Etcd.Endpoints = append([]string{" " + eps[0] + " "}, eps[1:]...)
+			}
+			if rapid.Bool().Draw(t, "dupEndpoint") {
+				cluster.Spec.Etcd.Endpoints = append(cluster.Spec.Etcd.Endpoints, eps[0], "")
+			}
+		} else {
+			env[operatorEtcdEndpointsEnv] = strings.Join(eps, ", ")
 		}
-		if rapid.Bool().Draw(t, "dupEndpoint") {
-			cluster.Spec.Etcd.Endpoints = append(cluster.Spec.Etcd.Endpoints, endpoints[0], "")
-		}
-	case "external-env":
-		env[operatorEtcdEndpointsEnv] = strings.Join(endpoints, ",")
 	}
 	var extras []client.Object
 	for _, tp := range c42Topics(t, cluster) {
